@@ -943,7 +943,8 @@ class CInterp:
         if ck in ("IntegralCast", "IntegralToBoolean", "BooleanToSignedIntegral"):
             return self.int_cast(n, sub, st, implicit=True)
         if ck in ("IntegralToFloating", "FloatingCast"):
-            return [(s, Opaque("float")) for s, v in self.eval(sub, st)]
+            tb = {"float": 32, "double": 64, "long double": 80}.get(self.ctype(qtype(n)).name, 0)
+            return [(s, ("nan", tb) if (isinstance(v, tuple) and v and v[0] == "nan") else Opaque("float")) for s, v in self.eval(sub, st)]
         if ck == "FloatingToIntegral":
             return [(s, Opaque("float->int")) for s, v in self.eval(sub, st)]
         if ck == "PointerToBoolean":
@@ -1378,13 +1379,20 @@ class CInterp:
                 outs.extend(self.eval(a, s))
             elif t is False:
                 outs.extend(self.eval(b, s))
-            elif self.is_pure(a) and self.is_pure(b):
-                ra, rb = self.eval(a, s), self.eval(b, s)
-                outs.append((s, self._ite(t, ra[0][1], rb[0][1])))
+            elif self.is_pure(a) and self.is_pure(b) and self._try_ite(t, a, b, s, outs):
+                pass
             else:
                 for s1, val in self.branch(s, t):
                     outs.extend(self.eval(a if val else b, s1))
         return outs
+
+    def _try_ite(self, t, a, b, s, outs):
+        ra, rb = self.eval(a, s), self.eval(b, s)
+        try:
+            outs.append((s, self._ite(t, ra[0][1], rb[0][1])))
+            return True
+        except _NoMerge:
+            return False
 
     def ex_StmtExpr(self, n, st):
         outs = []
